@@ -23,8 +23,8 @@ class Obligation:
 
 def has_quant(t, _cache={}):
     k = t.get_id()
-    if k in _cache:
-        return _cache[k]
+    if k in _cache and _cache[k][0].eq(t):  # z3 recycles ids of collected terms: the cached term is kept alive and compared
+        return _cache[k][1]
     r = False
     stack = [t]
     seen = set()
@@ -38,7 +38,7 @@ def has_quant(t, _cache={}):
             r = True
             break
         stack.extend(e.children())
-    _cache[k] = r
+    _cache[k] = (t, r)
     return r
 
 
@@ -186,14 +186,17 @@ class PathCtx:
         V._CUR.pop()
 
 
-def explore(run, max_paths=2000, prune=True):
-    """Run `run(ctx)` on every feasible decision sequence.  Returns list of (ctx, outcome)."""
+def explore(run, max_paths=2000, prune=True, stop_after=None):
+    """Run `run(ctx)` on every feasible decision sequence.  Returns list of (ctx, outcome).
+    stop_after=N (canary runs only): stop once N paths have been explored (a sample of paths is enough to see a live one)."""
     from .interp import PathEnd
 
     work = [[]]
     results = []
     n = 0
     while work:
+        if stop_after is not None and n >= stop_after:
+            break
         prefix = work.pop()
         n += 1
         if n > max_paths:
